@@ -1,8 +1,13 @@
-(* Crc32c.v — executable CRC-32C (Castagnoli), reflected, table-free bitwise
-   version over N.  Used only to RUN models that take the checksum as a Section
-   variable (Model_Wal); no theorem depends on it.  Validated against Go's
+(* Crc32c.v — executable CRC-32C (Castagnoli, reflected) over N.  Used only to
+   RUN models that take the checksum as a Section variable (Model_Wal); no
+   theorem depends on it.  Validated against Go's
    crc32.Checksum(_, crc32.MakeTable(crc32.Castagnoli)) by the C03 harness
-   (cases CCrc).  Style: stdlib only, no proofs. *)
+   (cases CCrc) on every run.
+     crc32c_ref : table-free bitwise version (the definition);
+     crc32c     : the same function driven by a 256-entry table stored as a
+                  binary tree over the bits of the index (about ten times faster
+                  under vm_compute).
+   Style: stdlib only, no proofs (one computed sanity check at the end). *)
 From Goloop Require Import lib.Bytes.
 Open Scope N_scope.
 
@@ -12,12 +17,56 @@ Definition crc32c_mask : N := 4294967295.   (* 0xFFFFFFFF *)
 Definition crc32c_bit (c : N) : N :=
   if N.odd c then N.lxor (N.div2 c) crc32c_poly else N.div2 c.
 
-Definition crc32c_byte (c b : N) : N :=
-  let c := N.lxor c (b mod 256) in
+Definition crc32c_bit8 (c : N) : N :=
   crc32c_bit (crc32c_bit (crc32c_bit (crc32c_bit
   (crc32c_bit (crc32c_bit (crc32c_bit (crc32c_bit c))))))).
 
-Definition crc32c_update (c : N) (bs : bytes) : N := fold_left crc32c_byte bs c.
+Definition crc32c_byte_ref (c b : N) : N := crc32c_bit8 (N.lxor c (N.land b 255)).
+
+Definition crc32c_ref (bs : bytes) : N :=
+  N.lxor (fold_left crc32c_byte_ref bs crc32c_mask) crc32c_mask.
+
+(* ---- table version: T[x] = crc32c_bit8 x for x < 256, as a tree indexed by
+        the bits of x, least significant first ---- *)
+Inductive crc_tree := CLeaf (v : N) | CNode (zero one : crc_tree).
+
+Fixpoint crc_build (depth : nat) (acc w : N) : crc_tree :=
+  match depth with
+  | O => CLeaf (crc32c_bit8 acc)
+  | S d => CNode (crc_build d acc (2 * w)) (crc_build d (acc + w) (2 * w))
+  end.
+
+Definition crc32c_table : crc_tree := Eval vm_compute in crc_build 8 0 1.
+
+Fixpoint crc_look0 (t : crc_tree) : N :=
+  match t with CLeaf v => v | CNode z _ => crc_look0 z end.
+
+(* returns (T[low 8 bits of p], p >> 8) *)
+Fixpoint crc_lookp (t : crc_tree) (p : positive) : N * N :=
+  match t with
+  | CLeaf v => (v, Npos p)
+  | CNode z o =>
+      match p with
+      | xO q => crc_lookp z q
+      | xI q => crc_lookp o q
+      | xH => (crc_look0 o, 0)
+      end
+  end.
+
+Definition crc_look (t : crc_tree) (x : N) : N * N :=
+  match x with
+  | N0 => (crc_look0 t, 0)
+  | Npos p => crc_lookp t p
+  end.
+
+Definition crc32c_byte (c b : N) : N :=
+  let '(v, rest) := crc_look crc32c_table (N.lxor c (N.land b 255)) in N.lxor v rest.
 
 Definition crc32c (bs : bytes) : N :=
-  N.lxor (crc32c_update crc32c_mask bs) crc32c_mask.
+  N.lxor (fold_left crc32c_byte bs crc32c_mask) crc32c_mask.
+
+(* "123456789" -> 0xE3069283, both versions *)
+Example crc32c_check_value :
+  crc32c [49;50;51;52;53;54;55;56;57] = 3808858755 /\
+  crc32c_ref [49;50;51;52;53;54;55;56;57] = 3808858755.
+Proof. vm_compute. split; reflexivity. Qed.
